@@ -119,6 +119,9 @@ class SymFaults(object):
         raise InjectedError('injected non-socket exception in %s {0} {} {x!r} %%s %%(y)d' % op)
 
 
+ENDED = ('eof', 'error', 'exception', 'tls-error')      # ways a transport ends (everything but 'silence')
+
+
 class Script(object):
     """what the peer of one socket does"""
 
@@ -235,7 +238,7 @@ class FakeSocket(object):
         s = self._script()
         if s.remaining() > 0:
             return True
-        return s.end in ('eof', 'error', 'exception')
+        return s.end in ENDED
 
     def _take(self, n):
         s = self._script()
@@ -245,6 +248,10 @@ class FakeSocket(object):
             if s.end == 'error':
                 self.reset = True
                 raise _socket.error(104, 'Connection reset by peer (injected) {0} {} {x!r} %s %(y)d')
+            if s.end == 'tls-error':
+                # a TLS-level failure reported by the ssl module (ssl.SSLError is an OSError): e.g. the peer dropped TCP without close_notify
+                self.reset = True
+                raise _ssl.SSLEOFError(8, 'EOF occurred in violation of protocol (_ssl.c:2427) {0} {} %s')
             if s.end == 'exception':
                 raise RuntimeError('injected non-socket exception {0} {} {x!r} %s %(y)d')
             if s.end == 'eof':
@@ -450,7 +457,7 @@ def _edge_ready(s):
     """edge-triggered readiness of a scripted socket: an arrival not yet reported"""
     sc = s._script()
     seen = getattr(s, 'edge_seen', (-1, False))
-    now = (len(sc.items), sc.remaining() == 0 and sc.end in ('eof', 'error', 'exception'))
+    now = (len(sc.items), sc.remaining() == 0 and sc.end in ENDED)
     # a new arrival: more bytes exist than at the last report, or the stream end became visible
     if now[0] > seen[0] or (now[1] and not seen[1]):
         return True
@@ -466,7 +473,7 @@ def wait_readable(w, socks, timeout, scale=1.0, edge=()):
     for s in ready:
         if s.id in edge:
             sc = s._script()
-            s.edge_seen = (len(sc.items), sc.remaining() == 0 and sc.end in ('eof', 'error', 'exception'))
+            s.edge_seen = (len(sc.items), sc.remaining() == 0 and sc.end in ENDED)
     adv = getattr(w, 'advance', None)
     if adv is not None:
         return adv(w, socks, ready, timeout, scale)
